@@ -47,7 +47,7 @@ func init() {
 			a := c48Anchors{pkgRel: "errguard", goName: "Go", recoverAndLog: "RecoverAndLog", groupGo: "golang.org/x/sync/errgroup.Group.Go",
 				floors: [8]int{1, 1, 1, 1, 1, 1, 3, 1}}
 			if c.Tier == "thorough" {
-				a.floors[6] = 7
+				a.floors[6] = 6
 			}
 			runC48(c, a)
 		},
